@@ -12,7 +12,7 @@ PROP = {
                  "domtree_check_sound", "reducible_check_sound", "loops_check_sound", "back_edges_correct", "remove_unreachable_correct", "pre_order_perm", "dominator_tree_of_idoms", "looptree_check_sound",
                  "tab_ok_always", "idom_exists", "idom_unique", "dominator_tree_correct", "compute_dominators_correct", "compute_back_edges_correct",
                  "compute_dominance_frontiers_correct", "unreachable_excluded", "pre_order_search_order",
-                 "topo_correct", "topo_error_iff_cycle", "is_acyclic_iff", "post_order_correct", "is_reducible_correct", "pre_order_is_dfs", "compute_loops_correct", "compute_loop_tree_correct"],
+                 "topo_correct", "topo_error_iff_cycle", "is_acyclic_iff", "post_order_correct", "is_reducible_correct", "pre_order_is_dfs", "compute_loops_correct", "compute_loop_tree_correct", "transitive_preds_correct"],
     "rule": "every digraph on 1, 2, 3 vertices x every root (1570 cases, on three of every four positions up to position 2094); the other positions: 70% random digraphs (1-14 vertices, contiguous / sparse / random 64-bit ids, "
             "sparse/dense/spine/DAG shapes, forced self-loops, two-entry cycles, root inside a loop, unreachable components, 2.5% roots outside the graph) on which "
             "every public algorithm is run, 30% edit histories of 1-40 insert/remove operations over a pool of 2-6 ids with all public views dumped after each step; "
@@ -22,12 +22,11 @@ PROP = {
     "assumptions": ["vertex ids range over usize (modelled as N); graphs are built through the public insert/remove API"],
     "partial": ["unbounded correctness of Semi-NCA itself is not proved: covered per output by the verified validator idom_check [V] and on all digraphs with <= 3 vertices [F] "
                 "(4 vertices: Graph/SemiNca4.v, 42 min build, coq_targets_thorough); every unbounded dominator/frontier/back-edge/reducibility theorem about the model is conditional on idom_check of the model's idom map",
-                "compute_dfs_tree, compute_predecessors, compute_acyclic, compute_loops, compute_loop_tree have no unbounded theorem about the model functions (tie + oracle per case, [F] n <= 3, verified validators for "
-                "transitive predecessors, loops, loop nesting); compute_pre_order: permutation of the reachable set + search order proved, equality with a recursive reference DFS not",
+                "compute_dfs_tree and compute_acyclic have no unbounded theorem about the model functions (tie + oracle per case, [F] n <= 3)",
                 "pre-order / DFS-tree / compute_acyclic oracles check conditions of the definitions without a soundness theorem (any DFS child order accepted); the exact order is fixed only by the tie",
                 "native recursion depth (stack overflow on very long paths) is not modelled"],
     "level_text": "Unbounded Coq theorems about the Gallina model of falcon::graph: the four views of Graph<V,E> stay mutually consistent under every sequence of insert/remove operations (failing ones included, never a panic); "
-                  "reachable/unreachable/remove_unreachable_vertices, pre-order (permutation + search order), post-order (valid DFS finishing order), topological ordering (Ok = topological order, Err iff cycle), is_acyclic are correct; given that the model's idom map passes the validator idom_check: dominator tree, dominator sets, back edges, dominance frontiers (incl. start node) and is_reducible (Hecht-Ullman) are correct and unreachable vertices are excluded; immediate dominators exist and are unique; the derivations from the idom map (dominator sets, dominance frontiers incl. the start node, back edges) are correct; "
+                  "reachable/unreachable/remove_unreachable_vertices, pre-order (permutation + search order), post-order (valid DFS finishing order), pre-order is a DFS pre-order (relational), transitive predecessors, topological ordering (Ok = topological order, Err iff cycle), is_acyclic are correct; given that the model's idom map passes the validator idom_check: dominator tree, dominator sets, back edges, dominance frontiers (incl. start node) is_reducible (Hecht-Ullman), natural loops and the loop nesting graph are correct and unreachable vertices are excluded; immediate dominators exist and are unique; the derivations from the idom map (dominator sets, dominance frontiers incl. the start node, back edges) are correct; "
                   "verified validators (idom_check and ten more) whose acceptance implies the textbook relational definition, evaluated in the kernel on every result the Rust code returns; "
                   "finite-domain theorems (all digraphs on <= 3 vertices x all roots) for Semi-NCA and for all 17 routines of the model; plus the in-kernel differential tie model = code on generated graphs and edit histories.",
     "level_note": "Trusted: Coq kernel + vm_compute; the harness/pretty-printer; std BTreeMap/FxHashMap as finite maps; the model is hand-written and tied to the code differentially. "
